@@ -103,9 +103,9 @@ theorem for3_compact_eq (L : List Nat) (i cell stride : Nat) (js : List Nat) (hi
 /-! ### one pass (`while i < len(current_cells)`) -/
 
 theorem expected_cases (r : Int) :
-    ((expectedChildren r : Nat) : Int) = (if r ≥ Src.compact.FIRST_HILBERT_RESOLUTION then 4 else if r = 0 then 12 else 5) := by
-  have hc : Src.compact.FIRST_HILBERT_RESOLUTION = CFHR := by decide
-  rw [hc]; unfold expectedChildren
+    ((expectedChildren r : Nat) : Int) = (if r ≥ (2 : Int) then 4 else if r = 0 then 12 else 5) := by
+  have hc : CFHR = 2 := by decide
+  unfold expectedChildren; rw [hc]
   split
   · rfl
   · split <;> rfl
@@ -206,13 +206,7 @@ theorem loop2_eq : ∀ (n : Nat) (rem pre res : List Nat) (ch : Bool) (fuel : Na
       exact adv
     · rw [if_neg hneg, if_neg hneg]
       generalize hr : getResolution cell = r at *
-      have hexp : (if r ≥ Src.compact.FIRST_HILBERT_RESOLUTION then (pure 4 : PyM Int)
-            else (if r = 0 then (pure 12 : PyM Int) else pure 5) >>= fun e => pure e)
-          = pure ((expectedChildren r : Nat) : Int) := by
-        rw [expected_cases]; split
-        · rfl
-        · split <;> rfl
-      rw [hexp, pure_ok, bind_ok]
+      rw [← expected_cases r]
       have hk4 : 4 ≤ expectedChildren r := by
         unfold expectedChildren; split
         · omega
